@@ -147,7 +147,7 @@ func (r *Reader) Read(p []byte) (n int, err error) {
 // It discards all frames of fragmented message.
 func (r *Reader) Discard() (err error) {
 	for {
-		_, err = io.Copy(ioutil.Discard, &r.raw)
+		_, err = io.Copy(ioutil.Discard, rawReader{&r.raw})
 		if err != nil {
 			break
 		}
@@ -197,7 +197,7 @@ func (r *Reader) NextFrame() (hdr ws.Header, err error) {
 		N: hdr.Length,
 	}
 
-	frame := io.Reader(&r.raw)
+	frame := io.Reader(rawReader{&r.raw})
 	if hdr.Masked {
 		if r.cr == nil {
 			r.cr = NewCipherReader(frame, hdr.Mask)
@@ -221,7 +221,7 @@ func (r *Reader) NextFrame() (hdr ws.Header, err error) {
 			}
 			if err == nil {
 				// Ensure that src is empty.
-				_, err = io.Copy(ioutil.Discard, &r.raw)
+				_, err = io.Copy(ioutil.Discard, rawReader{&r.raw})
 			}
 			return hdr, err
 		}
@@ -249,6 +249,21 @@ func (r *Reader) NextFrame() (hdr ws.Header, err error) {
 	}
 
 	return hdr, err
+}
+
+// rawReader reads the payload of the current frame. Unlike a bare
+// io.LimitedReader it reports io.ErrUnexpectedEOF when the source ends before
+// the whole payload announced by the frame header has been read.
+type rawReader struct {
+	lr *io.LimitedReader
+}
+
+func (r rawReader) Read(p []byte) (n int, err error) {
+	n, err = r.lr.Read(p)
+	if err == io.EOF && r.lr.N > 0 {
+		err = io.ErrUnexpectedEOF
+	}
+	return n, err
 }
 
 func (r *Reader) fragmented() bool {
